@@ -89,6 +89,25 @@ def oracle(c):
             return ('content-before-error-lost', {'error_pos': p, 'valid_prefix_len': m, 'index': i,
                                                   'strict_of_prefix': treedump.dump(W[i])[:200],
                                                   'tolerant': treedump.dump(T[i])[:200] if i < len(T) else None})
+    if m == p:
+        # the valid prefix ends exactly where the error is: whatever follows the last solid node in the
+        # prefix (whitespace that became a node of its own, comments) has been pushed before the error
+        # is detected; a trailing whitespace node may only grow (never shrink or vanish)
+        for i in range(max(last_solid, 0), len(W)):
+            w = W[i]
+            if i == last_solid and treedump.kind(w) == 'C':
+                continue                               # the text rule below
+            if i == last_solid and i == len(W) - 1:
+                continue                               # a last solid node may still change (arguments, merging)
+            if i == len(W) - 1 and treedump.kind(w) == 'C':
+                if i >= len(T) or treedump.kind(T[i]) != 'C' or T[i].pos != w.pos or not T[i].chars.startswith(w.chars):
+                    return ('whitespace-before-error-lost', {'error_pos': p, 'valid_prefix_len': m, 'index': i,
+                                                             'strict_of_prefix': treedump.dump(w)[:200],
+                                                             'tolerant': treedump.dump(T[i])[:200] if i < len(T) else None})
+            elif i > last_solid and (i >= len(T) or treedump.dump(T[i]) != treedump.dump(w)):
+                return ('content-before-error-lost', {'error_pos': p, 'valid_prefix_len': m, 'index': i,
+                                                      'strict_of_prefix': treedump.dump(w)[:200],
+                                                      'tolerant': treedump.dump(T[i])[:200] if i < len(T) else None})
     if m == p and last_solid >= 0 and treedump.kind(W[last_solid]) == 'C':
         i = last_solid
         w = W[i]
